@@ -304,7 +304,42 @@ def t_reply_status(repo, out):
     out.append("def replyParsedStatuses : List Nat := %s" % llist(str(x) for x in sets[1][1]))
 
 
-TABLES = [t_encoder, t_namespaces, t_boolean, t_parser_sites, t_reply_status]
+def _option_defs(repo, rel, out, lean_name):
+    tree = parse(repo, rel)
+    cls = find_class(tree, "Options", rel)
+    init = find_func(cls, "__init__", rel)
+    defs = None
+    for n in ast.walk(init):
+        if isinstance(n, ast.Assign) and isinstance(n.targets[0], ast.Name) and n.targets[0].id == "definitions":
+            defs = n.value
+    if not isinstance(defs, ast.List):
+        raise TranslatorError("%s: Options.__init__ has no `definitions = [...]` list" % rel)
+    items = []
+    for d in defs.elts:
+        if not (isinstance(d, ast.Call) and isinstance(d.func, ast.Name) and d.func.id == "Definition"
+                and len(d.args) in (3, 4)):
+            raise TranslatorError("%s: unrecognised option definition %s" % (rel, ast.unparse(d)))
+        name = lit(d.args[0], "option name")
+        c = d.args[1]
+        if isinstance(c, ast.Tuple):
+            classes = [ast.unparse(e) for e in c.elts]
+        else:
+            classes = [ast.unparse(c)]
+        default = ast.unparse(d.args[2])
+        linker = ast.unparse(d.args[3]) if len(d.args) == 4 else ""
+        items.append("⟨%s, %s, %s, %s⟩" % (lstr(name), llist(lstr(x) for x in classes), lstr(default), lstr(linker)))
+    out.append("def %s : List OptDef :=\n  %s" % (lean_name, llist(items)))
+
+
+def t_options(repo, out):
+    """C14: the option definitions of both domains (name, accepted classes, default, linker)."""
+    out.append("structure OptDef where\n  name : String\n  classes : List String\n  default : String\n"
+               "  linker : String\n  deriving Repr, DecidableEq")
+    _option_defs(repo, "suds/options.py", out, "clientOptionDefs")
+    _option_defs(repo, "suds/transport/options.py", out, "transportOptionDefs")
+
+
+TABLES = [t_encoder, t_namespaces, t_boolean, t_parser_sites, t_reply_status, t_options]
 
 
 def generate(repo):
